@@ -66,7 +66,11 @@ def check_props(pid, timeout=900):
     import glob
     srcs = sorted(glob.glob(os.path.join(COQ, "theories", "Props", pid + "*.v")))   # Cxx.v, CxxStore.v, ...
     if len(srcs) > 1:
-        parts = [_check_props_file(s, timeout) for s in srcs]
+        # the property files of one property are independent of each other: re-check them concurrently (each coqc writes only its own .vo)
+        import concurrent.futures as cf
+        with _Lock("coq"):
+            with cf.ThreadPoolExecutor(min(8, len(srcs))) as ex:
+                parts = list(ex.map(lambda s: _check_props_file(s, timeout, lock=False), srcs))
         return dict(theorems=[t for p in parts for t in p["theorems"]],
                     assumptions={k: v for p in parts for k, v in p["assumptions"].items()},
                     ok=all(p["ok"] for p in parts), forbidden=[f for p in parts for f in p["forbidden"]],
@@ -75,13 +79,16 @@ def check_props(pid, timeout=900):
     return _check_props_file(srcs[0] if srcs else os.path.join(COQ, "theories", "Props", pid + ".v"), timeout)
 
 
-def _check_props_file(src, timeout=900):
+def _check_props_file(src, timeout=900, lock=True):
     text = open(src).read()
     theorems = re.findall(r"^\s*(?:Theorem|Corollary)\s+([A-Za-z0-9_']+)", text, re.M)
     printed = re.findall(r"^\s*Print Assumptions\s+([A-Za-z0-9_']+)\s*\.", text, re.M)
     forbidden = re.findall(r"\b(Admitted|admit|Axiom|Parameter|Conjecture|Abort)\b", re.sub(r"\(\*.*?\*\)", "", text, flags=re.S))
     cmd = ["coqc"] + coq_args() + [src]
-    with _Lock("coq"):
+    if lock:
+        with _Lock("coq"):
+            p = sh(cmd, cwd=COQ, timeout=timeout)
+    else:
         p = sh(cmd, cwd=COQ, timeout=timeout)
     out = p.stdout
     # split output into blocks, one per Print Assumptions, in order
